@@ -14,6 +14,9 @@ pub fn take_panic_location() -> String {
 }
 
 pub fn install_silent_panic_hook() {
+    if std::env::var("VCHECK_DEBUG").is_ok() {
+        return; // keep the default hook (messages on stderr)
+    }
     std::panic::set_hook(Box::new(|info| {
         let loc = info.location().map(|l| format!("{}:{}", l.file(), l.line())).unwrap_or_default();
         LAST_PANIC_LOC.with(|l| *l.borrow_mut() = loc);
